@@ -51,7 +51,7 @@ def idclash_runs(schema, rnd, tier):
 
 
 def plans():
-    obs = metagen.battery(['chk_assoc', 'chk_assoc', 'chk_id', 'consistent', 'chk_sub'], per_step=3)
+    obs = metagen.battery(['chk_assoc', 'chk_assoc', 'chk_id', 'consistent', 'chk_sub', 'cli'], per_step=3)
     ps = []
     for name, b in c02.QUICK.items():
         ps.append({'name': name, 'schema': name, 'bound': {'quick': b, 'thorough': c02.THOROUGH[name]},
@@ -59,6 +59,17 @@ def plans():
                    'random': lambda schema, rnd, tier: c02.random_runs(schema, rnd, 3 if tier == 'quick' else 40, 100, 12)})
     for name in ('valued', 'many_one_2key', 'subsuper', 'assoc_class', 'grid', 'mixed_case'):
         ps.append({'name': name + '_ids', 'schema': name, 'bound': 2, 'model': False, 'obs': obs, 'random': idclash_runs})
+    # over-populated ends are only reachable by loading duplicate keys: the populations of C03 (TLC enumerates every
+    # population of the row choices of each shape), each followed by the consistency observations
+    from . import c03
+    obs4 = metagen.battery(['chk_assoc', 'chk_assoc', 'chk_id', 'consistent', 'cli'], per_step=4)
+    for p in c03._plans0():
+        p = dict(p)
+        p['name'] += '_loaded'
+        p['obs'] = obs4
+        p['budget'] = 500
+        p['budget_thorough'] = 20000
+        ps.append(p)
     return ps
 
 
@@ -73,6 +84,9 @@ def check(tier, replay_path=None):
                    'histories; null and repeated identifiers via explicit values)',
         assumptions=[
             'null = unset or the null id, as the statement says; every referred key is part of a declared identifier',
-            'over-populated ends are only reachable through loading and are covered by the Load family (C03)',
+            'over-populated ends are only reachable through loading: every population of the C03 row choices is loaded and checked',
+            'the command-line tool is run on the persisted model (main() in process; for a share of the calls also as a process, '
+            'whose exit status must be 1 exactly when violations exist); bridgepoint/consistency_check.py shares the counting '
+            'functions and differs only in the loader, it is not run',
             'identifier repeats are counted per (instance, identifier) pair',
         ])
